@@ -3,6 +3,8 @@ package core
 import (
 	"fmt"
 	"os"
+	"runtime"
+	"runtime/pprof"
 	"sort"
 	"sync/atomic"
 	"time"
@@ -25,6 +27,9 @@ type KnownHit struct {
 	Message   string `json:"message"`
 	Case      *Case  `json:"case"`
 }
+
+// memStats (VERIF_MEMSTATS=1, development aid): goroutine and heap figures every 2000 runs.
+var memStats = os.Getenv("VERIF_MEMSTATS") == "1"
 
 // WorkerMain is the body of every worker test binary.  Exit status: 0 batch
 // finished (violations, if any, are in the result file); 10 replay reproduced
@@ -77,6 +82,14 @@ func WorkerMain(env *Env, eng Engine) int {
 		Tick()
 		v := eng.Run(env, run, res)
 		res.Runs++
+		if memStats && res.Runs%2000 == 0 {
+			var ms runtime.MemStats
+			runtime.ReadMemStats(&ms)
+			fmt.Fprintf(os.Stderr, "memstats runs=%d goroutines=%d heap_inuse=%dMB sys=%dMB\n", res.Runs, runtime.NumGoroutine(), ms.HeapInuse>>20, ms.Sys>>20)
+			if res.Runs == 4000 {
+				pprof.Lookup("goroutine").WriteTo(os.Stderr, 1)
+			}
+		}
 		if v == nil {
 			continue
 		}
